@@ -156,6 +156,23 @@ func c38Check(c *fw.Ctx, cs c38Case, extraBodies []int) {
 			c.Violation("max-body-not-maximal", cs.Detail, cs)
 		}
 	}
+	// bodies just beyond a multiple of the maximum (sampled): the channel splits them, and no chunk of the split may carry
+	// more than the maximum, i.e. exceed the chunk size
+	if len(extraBodies) > 0 && cs.ChunkSize <= 1<<17 {
+		for _, b := range []int{m + 1, 2*m + 1, 3*m + 1} {
+			var n int
+			if pn := fw.Catch(func() { _, n, e = secure(b, 0) }); pn != nil {
+				c.Violation("secure-"+pn.Key(), "EncodeChunks/signAndEncrypt panicked: "+pn.Msg, cs)
+				return
+			}
+			c.Eval(1)
+			if e != nil {
+				cs.Detail = fmt.Sprintf("body %d (maximum %d, %d chunks): %v", b, m, n, e)
+				c.Violation(fmt.Sprintf("split-chunk-does-not-fit:mode=%d", cs.Mode), cs.Detail, cs)
+				return
+			}
+		}
+	}
 	// smaller bodies fit as well (sampled), in one chunk
 	for _, b := range extraBodies {
 		if b >= m || b < 64 {
@@ -232,7 +249,7 @@ func init() {
 	fw.Register("C38", fw.Spec{
 		Plan: func(tier string) fw.Plan {
 			p := fw.Plan{Batches: 8, TimeoutS: 600, MinNontrivial: 20000, Level: "exploration",
-				Rule:        "5 symmetric policies x {Sign, SignAndEncrypt} + None/None x chunk sizes: every value in [8192, 8192+4096) (quick) / [8192, 8192+65536) (thorough), then log-spaced and random sizes up to 2^24; per case the real SetMaximumBodySize, EncodeChunks and signAndEncrypt are run on a body of exactly the maximum (must fit, MessageSize = length, whole cipher blocks, size equal to the layout arithmetic), on maximum+1 forced into one chunk (must not fit in SignAndEncrypt) and on sampled smaller bodies; distinct = distinct (policy, mode, chunk size); live part: 96 (quick) / 3000 (thorough) real client channels and real server channels (opened, a third of them renewed first) with different buffers in the two directions send a message of three chunks to the independent peer, which reports length and body bytes of every chunk: each chunk fits the negotiated size, and in SignAndEncrypt one body byte more than an intermediate chunk carries would not fit",
+				Rule:        "5 symmetric policies x {Sign, SignAndEncrypt} + None/None x chunk sizes: every value in [8192, 8192+4096) (quick) / [8192, 8192+65536) (thorough), then log-spaced and random sizes up to 2^24; per case the real SetMaximumBodySize, EncodeChunks and signAndEncrypt are run on a body of exactly the maximum (must fit, MessageSize = length, whole cipher blocks, size equal to the layout arithmetic), on maximum+1 forced into one chunk (must not fit in SignAndEncrypt) on sampled smaller bodies and on bodies of k x maximum + 1 (every chunk of the split must fit); distinct = distinct (policy, mode, chunk size); live part: 96 (quick) / 3000 (thorough) real client channels and real server channels (opened, a third of them renewed first) with different buffers in the two directions send a message of three chunks to the independent peer, which reports length and body bytes of every chunk: each chunk fits the negotiated size, and in SignAndEncrypt one body byte more than an intermediate chunk carries would not fit",
 				Assumptions: []string{"the in-process wrapper EncodeAndSecure repeats the loop of writeMessageChunks without the socket write (hook file uasc/verif_export.go)"}}
 			if tier == "thorough" {
 				p.Batches, p.TimeoutS, p.MinNontrivial = 16, 2400, 400000
